@@ -277,19 +277,50 @@ def run(ctx):
             os_ = origins(rs, e.get('r'))
             ctx.check('C08.W1', bool(os_) and all(mentions_call(o, 'DiskInterface::Stat') for o in os_), rs.name,
                       'Restat:mtime-source', rs.where(e), 'the new mtime is the Stat() of the entry\'s output')
-            guarded(ctx, 'C08.W1', rs, e, is_var('skip'), False, 'only selected entries are re-stat\'ed',
-                    construct='Restat:unselected-entry-updated')
-    sel = [e for e in rs.events('asg') if is_var('skip')(e['l']) and const_value(e.get('r')) == 0]
-    ctx.check('C08.W1', len(sel) == 1, rs.name, 'Restat:selection-sites', rs.loc, 'one place selects an entry')
-    for e in sel:
-        facts = rs.facts_at(e)
-        def full_eq(a):
-            a = strip(a)
-            return isinstance(a, dict) and a.get('k') == 'call' and lastname(a.get('name')) == 'operator==' and \
-                mentions_field(a, 'BuildLog::LogEntry::output') and mentions_var(a, 'outputs')
-        ctx.check('C08.W1', fact_holds(facts, full_eq, True), rs.name, 'Restat:selection-not-equality', rs.where(e),
-                  'an entry is selected only if its output equals (==) one of the requested paths; facts: %s' %
-                  [k[:70] for k in facts][:4])
+            # selection, either idiom:
+            #  (A) a flag local: initialised from `output_count > 0`, cleared only under a full-string equality
+            #      of the entry's output with outputs[j]; the write is guarded by that flag being false;
+            #  (B) direct control flow: every path from the start of the iteration to the write takes an edge
+            #      `output_count <= 0` / `!(output_count > 0)` or an edge where that equality holds.
+            def full_eq(a):
+                a = strip(deep_resolve(rs, a))
+                return isinstance(a, dict) and a.get('k') == 'call' and lastname(a.get('name')).startswith('operator==') and \
+                    mentions_field(a, 'BuildLog::LogEntry::output') and mentions_var(a, 'outputs')
+            def no_outputs_named(k, pol, atom):
+                a = strip(atom)
+                if not (isinstance(a, dict) and a.get('k') == 'bin' and mentions_var(a, 'output_count')):
+                    return False
+                l, r, op = strip(a['l']), strip(a['r']), a['op']
+                if op == '<' and const_value(l) == 0 and mentions_var(r, 'output_count'):     # 0 < output_count
+                    return pol is False
+                if op == '<' and mentions_var(l, 'output_count') and const_value(r) == 1:     # output_count < 1
+                    return pol is True
+                if op == '==' and const_value(r) == 0:
+                    return pol is True
+                return False
+            okA = False
+            flags = [k for k, (pol, a) in rs.facts_at(e).items() if pol is False and isinstance(strip(a), dict) and
+                     strip(a).get('k') == 'var' and strip(a).get('vk') == 'local']
+            for fl in flags:
+                defs = [x for x in rs.events() if (x['k'] == 'decl' and x['n'] == fl and x.get('init') is not None) or
+                        (x['k'] == 'asg' and is_var(fl)(x['l']))]
+                inits = [x for x in defs if x['k'] == 'decl']
+                clears = [x for x in defs if x['k'] == 'asg']
+                if len(inits) == 1 and mentions_var(inits[0]['init'], 'output_count') and clears and \
+                        all(const_value(x.get('r')) == 0 and fact_holds(rs.facts_at(x), full_eq, True) for x in clears):
+                    okA = True
+            okB = False
+            if not okA:
+                heads = [l for l in loops_over(rs, 'BuildLog::entries_')
+                         if e['_b'] in rs.reachable_from(l['body']) | {l['body']}]
+                for l in heads:
+                    r = rs.find_path(None, lambda x: x is e, from_succ=l['body'], sensitive=False,
+                                     edge_ok=lambda b, i, s2: not any(no_outputs_named(k, pol, atom) or (pol is True and full_eq(atom))
+                                                                      for k, pol, atom in rs.edge_facts(b, i)))
+                    okB = r is None
+            ctx.check('C08.W1', okA or okB, rs.name, 'Restat:unselected-entry-updated', rs.where(e),
+                      'an entry\'s mtime is refreshed only if no outputs were named or its output equals (==) a named one '
+                      '(idiom %s)' % ('flag' if okA else 'control flow' if okB else 'none recognised'))
     # each entry is written back
     for f in (rs, rp):
         ls = loops_over(f, 'BuildLog::entries_')
